@@ -601,14 +601,17 @@ func (e *engine) eval() error {
 					}
 				}
 			}
+			// The facts derived in this round become the delta of the next round. They must
+			// also be in e.store before that round runs, because a delta rule takes only one
+			// premise from the delta and all others from e.store.
+			e.deltaStore = newDeltaStore
+			e.temporalDeltaStore = newTemporalDeltaStore
 			if err := e.mergeDelta(); err != nil {
 				return err
 			}
 			if e.options.totalFactLimit > 0 && e.store.EstimateFactCount() > e.options.totalFactLimit {
 				return fmt.Errorf("fact size limit reached %d > %d", e.store.EstimateFactCount(), e.options.totalFactLimit)
 			}
-			e.deltaStore = newDeltaStore
-			e.temporalDeltaStore = newTemporalDeltaStore
 			if !incrementalFactAdded {
 				break
 			}
